@@ -154,7 +154,9 @@ def run(ctx):
                 stats["model_compared"] += 1
                 if ok_std and ok_core:
                     if fs[0] != fc[0]:
-                        cls = "nostd-powi"
+                        # c17_std_nostd_conversions_agree_nonneg: impossible unless the dimension has a negative exponent
+                        cls = "nostd-powi" if any(e < 0 for e in q["dim"]) else None
+                        stats["powi_class_has_negative_exponent"] = stats.get("powi_class_has_negative_exponent", 0) + (1 if cls else 0)
                     else:
                         cls = "nostd-negzero"
                 if cls and ctx.known_hit(cls, {"nostd-powi": "std and no-std differ in the last bit of conversions needing powi with a negative exponent",
